@@ -260,7 +260,8 @@ def survey(ctx, tree, label, workers=8):
     if res["error"] or res["violated"]:
         raise ToolingError("TLC error validating %s:\n%s" % (label, (res["error"] or res["out"])[-3000:]))
     rej = []
-    for m in re.finditer(r'<<"REJ", (\d+), \{([^}]*)\}>>', res["out"]):
+    # (TLC's pretty printer wraps long tuples over several lines)
+    for m in re.finditer(r'<<\s*"REJ",\s*(\d+),\s*\{([^}]*)\}\s*>>', res["out"]):
         rej.append((int(m.group(1)), re.findall(r'"([^"]+)"', m.group(2))))
     visited = res["distinct"] - 1
     res["out"] = ""
